@@ -108,7 +108,8 @@ def plain_sections(rng, n, machine):
     """Sections whose construction reads nothing: generic, NOBITS, odd type codes."""
     out = []
     types = [1, 1, 1, 8, 3, 7, 14, 15, 16, 17, 10, 0, 0x6ffffff5, 0x6ffffff7, 0x6ffffff8, 0x70000001, 0x70000000, 0x70000002,
-             0x7000002a, 0x7fffffff, 0x60000000, 0x6fff4700, 0x80000000, 0xffffffff, 0x12345678, 12, 13, 20, 0x6ffffff0]
+             0x7000002a, 0x7fffffff, 0x60000000, 0x6fff4700, 0x80000000, 0xffffffff, 0x12345678, 12, 13, 20, 0x6ffffff0,
+             0x0fffffff, 0x8fffffff, 0x7ffffffe]        # near-misses of the range limits
     if machine not in (EM_ARM, EM_RISCV):
         types.append(0x70000003)
     for i in range(n):
